@@ -22,12 +22,16 @@ fn main() {
         "C05" => props::c05::run(&cfg),
         "C06" => props::c06::run(&cfg),
         "C07" => props::c07::run(&cfg),
+        "C08" => props::c08::run(&cfg),
+        "C08-worker" => props::c08::worker(&args[2..]),
         "C09" => props::c09::run(&cfg),
+        "C14" => props::c14::run(&cfg),
         "C17" => props::c17::run(&cfg),
         "C18" => props::c18::run(&cfg),
         "C10" => props::c10::run(&cfg),
         "C12" => props::c12::run(&cfg),
         "C13" => props::c13::run(&cfg),
+        "C15" => props::c15::run(&cfg),
         "C16" => props::c16::run(&cfg),
         "replay-eval" => {
             props::c01::replay(&args[2]);
